@@ -26,72 +26,119 @@ structure Rep where
   m : Nat → Nat → Nat → Int
   v : Option (Nat → Nat → Nat → Int)
 
-def repTokens (size dim : Nat) (rep : Rep) : List Int :=
-  let is := List.range (dim + 2)
-  let ds := List.range (size + 2)
+def repTokens (is ds : List Nat) (rep : Rep) : List Int :=
   (is.flatMap fun i => ds.map fun d => rep.op i d) ++
   (is.flatMap fun i => is.flatMap fun j => ds.flatMap fun d =>
     match rep.v with
     | some v => [rep.r i j d, rep.m i j d, v i j d]
     | none => [rep.r i j d, rep.m i j d])
 
+/-- the dense grid of op `tables`: one out-of-range value on each side -/
+def denseGrid (size dim : Nat) : List Nat × List Nat := (List.range (dim + 2), List.range (size + 2))
+
+def usizeMax : Nat := 18446744073709551615
+
+/-- the sparse far grid of op `probe` (harness/src/bin/c02.rs `probe_grid`) -/
+def probeGrid (size dim : Nat) : List Nat × List Nat :=
+  (List.range (dim + 7) ++ [1000, usizeMax - 1, usizeMax], [0, 1, size, size + 1, usizeMax].eraseDups)
+
+def setRep (v : View) : Rep :=
+  { op := fun i d => encOpt (v.op i d), r := fun i j d => encO (v.r i j d),
+    m := fun i j d => encOpt (v.m i j d), v := none }
+
+def symRepP (y : DSymData) : Rep :=
+  { op := fun i d => encOpt (y.op i d), r := fun i j d => encO (y.rPartial i j d),
+    m := fun i j d => encO (y.mPartial i j d), v := some (fun i j d => encO (y.vPartial i j d)) }
+
+def symRepS (y : DSymData) : Rep :=
+  { op := fun i d => encOpt (y.op i d), r := fun i j d => encO (y.rSimple i j d),
+    m := fun i j d => encO (y.mSimple i j d), v := some (fun i j d => encO (y.vSimple i j d)) }
+
+/-- mask bits as in the harness: 1 PartialDSet, 2 SimpleDSet, 4 PartialDSym, 8 SimpleDSym,
+    16 as_dset(&PartialDSym), 32 as_dsym(&SimpleDSet), 64 as_partial_dsym(&PartialDSym) -/
 def modelReps (s : RawSym) (mask : Nat) : List Rep :=
   let dd := s.dsetData
-  let pset : Rep := { op := fun i d => encOpt (dd.opPartial i d),
-                      r := fun i j d => encO (dd.viewPartial.r i j d),
-                      m := fun i j d => encOpt (dd.viewPartial.m i j d), v := none }
-  let sset : Rep := { op := fun i d => encOpt (dd.opSimple i d),
-                      r := fun i j d => encO (dd.viewSimple.r i j d),
-                      m := fun i j d => encOpt (dd.viewSimple.m i j d), v := none }
-  let syms : List Rep := match s.toSym with
-    | .ok y =>
-      [{ op := fun i d => encOpt (y.op i d), r := fun i j d => encO (y.rPartial i j d),
-         m := fun i j d => encO (y.mPartial i j d), v := some (fun i j d => encO (y.vPartial i j d)) },
-       { op := fun i d => encOpt (y.op i d), r := fun i j d => encO (y.rSimple i j d),
-         m := fun i j d => encO (y.mSimple i j d), v := some (fun i j d => encO (y.vSimple i j d)) }]
+  let sym : List DSymData := match s.toSym with | .ok y => [y] | _ => []
+  let asDset : List Rep := sym.flatMap fun y =>
+    match buildSet y.size y.dim y.op with
+    | .ok ds => [setRep ds.viewPartial]
     | _ => []
-  (if mask &&& 1 != 0 then [pset] else []) ++ (if mask &&& 2 != 0 then [sset] else []) ++
-  (if mask &&& 4 != 0 then syms.take 1 else []) ++ (if mask &&& 8 != 0 then syms.drop 1 else [])
+  let asDsym : List Rep :=
+    match dd.toSimple with
+    | .ok ss =>
+      (match buildSet ss.size ss.dim ss.opSimple with
+       | .ok ds => (match buildSymUsingVs ds (fun _ _ => some 1) with
+         | .ok z => [symRepP z]
+         | _ => [])
+       | _ => [])
+    | _ => []
+  let asPsym : List Rep := sym.flatMap fun y =>
+    match asPartialDSym y with
+    | .ok z => [symRepP z]
+    | _ => []
+  (if mask &&& 1 != 0 then [setRep dd.viewPartial] else []) ++
+  (if mask &&& 2 != 0 then [setRep dd.viewSimple] else []) ++
+  (if mask &&& 4 != 0 then sym.map symRepP else []) ++ (if mask &&& 8 != 0 then sym.map symRepS else []) ++
+  (if mask &&& 16 != 0 then asDset else []) ++ (if mask &&& 32 != 0 then asDsym else []) ++
+  (if mask &&& 64 != 0 then asPsym else [])
 
-/-- parsed answer tables of the implementation -/
+/-- parsed answer tables of the implementation, over the grid `is × is × ds` -/
 structure Parsed where
   hasV : Bool
   a : Array Int
-  size : Nat
-  dim : Nat
+  is : Array Nat
+  ds : Array Nat
+  /-- dense grid: position = value -/
+  dense : Bool
 
 namespace Parsed
-def nI (p : Parsed) : Nat := p.dim + 2
-def nD (p : Parsed) : Nat := p.size + 2
-def opAt (p : Parsed) (i d : Nat) : Int := p.a.getD (i * p.nD + d) (-3)
+def nI (p : Parsed) : Nat := p.is.size
+def nD (p : Parsed) : Nat := p.ds.size
+def posI (p : Parsed) (i : Nat) : Option Nat :=
+  if p.dense then (if i < p.nI then some i else none) else p.is.toList.findIdx? (· == i)
+def posD (p : Parsed) (d : Nat) : Option Nat :=
+  if p.dense then (if d < p.nD then some d else none) else p.ds.toList.findIdx? (· == d)
 def stride (p : Parsed) : Nat := if p.hasV then 3 else 2
+/-- answers addressed by argument value; -3 = not on the grid -/
+def opAt (p : Parsed) (i d : Nat) : Int :=
+  match p.posI i, p.posD d with
+  | some a, some c => p.a.getD (a * p.nD + c) (-3)
+  | _, _ => -3
 def q (p : Parsed) (k i j d : Nat) : Int :=
-  p.a.getD (p.nI * p.nD + ((i * p.nI + j) * p.nD + d) * p.stride + k) (-3)
+  match p.posI i, p.posI j, p.posD d with
+  | some a, some b, some c => p.a.getD (p.nI * p.nD + ((a * p.nI + b) * p.nD + c) * p.stride + k) (-3)
+  | _, _, _ => -3
 def r (p : Parsed) := p.q 0
 def m (p : Parsed) := p.q 1
 def v (p : Parsed) := p.q 2
-def len (size dim : Nat) (hasV : Bool) : Nat :=
-  (dim + 2) * (size + 2) + (dim + 2) * (dim + 2) * (size + 2) * (if hasV then 3 else 2)
+def len (nI nD : Nat) (hasV : Bool) : Nat :=
+  nI * nD + nI * nI * nD * (if hasV then 3 else 2)
 end Parsed
 
-def splitReps (size dim mask : Nat) (out : Array Int) : Option (List Parsed) :=
+def splitReps (grid : List Nat × List Nat) (dense : Bool) (mask : Nat) (out : Array Int) : Option (List Parsed) :=
   let kinds := (if mask &&& 1 != 0 then [false] else []) ++ (if mask &&& 2 != 0 then [false] else []) ++
-               (if mask &&& 4 != 0 then [true] else []) ++ (if mask &&& 8 != 0 then [true] else [])
+               (if mask &&& 4 != 0 then [true] else []) ++ (if mask &&& 8 != 0 then [true] else []) ++
+               (if mask &&& 16 != 0 then [false] else []) ++ (if mask &&& 32 != 0 then [true] else []) ++
+               (if mask &&& 64 != 0 then [true] else [])
+  let is := grid.1.toArray
+  let ds := grid.2.toArray
   let rec go (ks : List Bool) (off : Nat) (acc : List Parsed) : Option (List Parsed) :=
     match ks with
     | [] => if off == out.size then some acc.reverse else none
     | k :: ks =>
-      let n := Parsed.len size dim k
+      let n := Parsed.len is.size ds.size k
       if off + n > out.size then none
-      else go ks (off + n) ({ hasV := k, a := out.extract off (off + n), size := size, dim := dim } :: acc)
+      else go ks (off + n) ({ hasV := k, a := out.extract off (off + n), is := is, ds := ds, dense := dense } :: acc)
   go kinds 0 []
 
 def oi (o : Option Nat) : Int := match o with | some x => x | none => -1
 
-/-- the clauses of C02 about op/r/v/m, evaluated on one representation's answers -/
+/-- the clauses of C02 about op/r/v/m, evaluated on one representation's answers (every grid
+    point; the clauses that compare with the answer at a neighbouring chamber only on the dense
+    grid, where that chamber is on the grid) -/
 def tableClauses (g : G) (valid : Bool) (p : Parsed) : List (String × Bool) :=
-  let is := List.range (g.dim + 2)
-  let ds := List.range (g.size + 2)
+  let is := p.is.toList
+  let ds := p.ds.toList
   let all3 (f : Nat → Nat → Nat → Bool) : Bool := is.all fun i => is.all fun j => ds.all fun d => f i j d
   let inR (i j d : Nat) : Bool := i ≤ g.dim && j ≤ g.dim && 1 ≤ d && d ≤ g.size
   let complete := g.complete
@@ -103,14 +150,14 @@ def tableClauses (g : G) (valid : Bool) (p : Parsed) : List (String × Bool) :=
     ("r-is-orbit-length", all3 fun i j d => !inR i j d || !(valid || !p.hasV) ||
         p.r i j d == oi (g.orbitLen i j d)),
     ("r-symmetric", all3 fun i j d => !complete || p.r i j d == p.r j i d),
-    ("r-constant-on-orbits", all3 fun i j d => !inR i j d || !complete ||
+    ("r-constant-on-orbits", all3 fun i j d => !inR i j d || !complete || !p.dense ||
         (p.r i j d == p.r i j (g.op i d) && p.r i j d == p.r i j (g.op j d))) ] ++
   (if p.hasV then
    [ ("v-out-of-range-none", all3 fun i j d => inR i j d || (p.v i j d == -1 && p.m i j d == -1)),
      ("v-is-branching-number", all3 fun i j d => !inR i j d || !valid || p.v i j d == oi (g.vDef i j d)),
      ("m-eq-r-times-v", all3 fun i j d => !inR i j d || p.m i j d == p.r i j d * p.v i j d),
      ("v-m-symmetric", all3 fun i j d => p.v i j d == p.v j i d && p.m i j d == p.m j i d),
-     ("v-m-constant-on-orbits", all3 fun i j d => !inR i j d ||
+     ("v-m-constant-on-orbits", all3 fun i j d => !inR i j d || !p.dense ||
         (p.v i j d == p.v i j (g.op i d) && p.v i j d == p.v i j (g.op j d) &&
          p.m i j d == p.m i j (g.op i d) && p.m i j d == p.m i j (g.op j d))) ]
    else [])
@@ -119,8 +166,8 @@ def agreeClauses (ps : List Parsed) : List (String × Bool) :=
   match ps with
   | [] => []
   | p0 :: rest =>
-    let is := List.range (p0.dim + 2)
-    let ds := List.range (p0.size + 2)
+    let is := p0.is.toList
+    let ds := p0.ds.toList
     [ ("representations-agree-op", rest.all fun p => is.all fun i => ds.all fun d => p.opAt i d == p0.opAt i d),
       ("representations-agree-r", rest.all fun p => is.all fun i => is.all fun j => ds.all fun d => p.r i j d == p0.r i j d),
       ("representations-agree-v-m", (ps.filter (·.hasV)).all fun p => (ps.filter (·.hasV)).all fun p' =>
@@ -168,18 +215,29 @@ def travClauses (g : G) (idx seeds : List Nat) (ts : List (Int × Nat × Nat)) :
 def handler : Handler := fun op inp out =>
   let bad := ("-", fail "driver-cannot-parse-input")
   match op with
-  | "tables" =>
+  | "tables" | "probe" =>
     match run (do let mask ← P.nat; let valid ← P.nat; let s ← P.rawSym; pure (mask, valid, s)) inp with
     | some (mask, valid, s) =>
-      let model := (modelReps s mask).flatMap (repTokens s.size s.dim)
+      let dense := op == "tables"
+      let grid := if dense then denseGrid s.size s.dim else probeGrid s.size s.dim
+      let model := (modelReps s mask).flatMap (repTokens grid.1 grid.2)
       let g := specG s
       let outI := out.map (fun t => t.toInt?.getD (-3))
-      match splitReps s.size s.dim mask outI with
+      match splitReps grid dense mask outI with
       | some ps =>
         (intsToString model,
          check (("input-is-involutive", g.involutive) ::
                 (ps.flatMap (tableClauses g (valid == 1)) ++ agreeClauses ps)))
       | none => (intsToString model, fail "answer-tables-missing-or-panic")
+    | none => bad
+  | "counts" =>
+    match run (do let c ← P.nat; let k ← P.nat; let _s ← P.rawSym; pure (c, k)) inp with
+    | some (c, k) =>
+      -- PartialDSet (1,1); SimpleDSet::from_partial(_, c) (c,1); PartialDSym over it (c,1);
+      -- SimpleDSym::from_partial(_, k) (c,k): the counters are the ones given at construction
+      let expect : List Nat := [1, 1, c, 1, c, 1, c, k]
+      (natsToString expect,
+       check [("counters-are-the-ones-given-at-construction", out.toList.map String.toNat? == expect.map some)])
     | none => bad
   | "trav" | "orbit" | "orbit_reps" =>
     match run (do let rep ← P.tok; let s ← P.rawSym; let idx ← P.nats; let seeds ← P.nats; pure (rep, s, idx, seeds)) inp with
